@@ -137,42 +137,39 @@ def concretize(model, v, st, depth=0):
 
 # ---------------------------------------------------------------------------------------------------------
 def solve_vc(pc, goal, timeout_ms, want_model=True):
-    """-> (verdict 'unsat'|'sat'|'unknown', model|None, ms, backend)"""
-    t0 = time.time()
-    s = z3.Solver()
-    s.set('timeout', timeout_ms)
-    s.add(*pc)
-    s.add(z3.Not(goal))
-    from .builtins import global_axioms
-    s.add(*global_axioms(s.sexpr()))
-    r = s.check()
-    ms = int((time.time() - t0) * 1000)
-    if r == z3.unsat:
-        return 'unsat', None, ms, 'z3-%s' % z3.get_version_string(), None
-    if r == z3.sat:
-        return 'sat', s.model(), ms, 'z3-%s' % z3.get_version_string(), None
-    smt2 = s.to_smt2()
-    # second opinions on the SMT-LIB text
-    for name, cmd in (('cvc5-cli', ['/usr/bin/cvc5', '--lang=smt2', '--tlimit=%d' % timeout_ms, '--strings-exp',
-                                    '--nl-ext-tplanes']),
-                      ('z3-4.8.12', ['/usr/bin/z3', '-smt2', '-T:%d' % max(1, timeout_ms // 1000), '-in'])):
+    """-> (verdict, model, ms, backend, why)   [approximate candidates are NOT returned here: full solve]"""
+    from . import smt
+    r = smt.solve(pc, goal, timeout_ms)
+    if r['approx']:
+        r2 = smt.solve_full(smt.full_formulas(pc, goal), timeout_ms)
+        r2['ms'] += r['ms']
+        r = r2
+    return r['verdict'], r['model'], r['ms'], r['backend'], r['why']
+
+
+def replay_candidate(key, kind, clause, inputs, modules, repo):
+    """run the replayer (under /venv/bin/python) on a candidate counter-model; -> (reproduced?, status dict)"""
+    verif = os.path.dirname(os.path.dirname(os.path.abspath(__file__)))
+    fd, path = tempfile.mkstemp(suffix='.json', prefix='pyvc-cand-')
+    os.close(fd)
+    try:
+        with open(path, 'w') as f:
+            json.dump({'target': key, 'kind': kind, 'clause': clause, 'inputs': inputs, 'modules': modules}, f, default=str)
+        env = dict(os.environ, PYTHONPATH='%s:%s' % (verif, repo))
+        p = subprocess.run(['/venv/bin/python', '-m', 'pyvc.replay', path], env=env, cwd=verif, capture_output=True,
+                           text=True, timeout=120)
         try:
-            t1 = time.time()
-            text = smt2 if name != 'cvc5-cli' else '(set-logic ALL)\n' + smt2
-            p = subprocess.run(cmd if name != 'cvc5-cli' else cmd + ['-'], input=text, capture_output=True, text=True,
-                               timeout=timeout_ms / 1000.0 + 5)
-            out = p.stdout.strip().splitlines()
-            ms2 = int((time.time() - t1) * 1000)
-            if out and out[0] == 'unsat':
-                return 'unsat', None, ms + ms2, name, None
-            if out and out[0] == 'sat':
-                return 'sat', None, ms + ms2, name, None
+            st = json.loads(p.stdout)
         except Exception:
-            pass
-    return 'unknown', None, int((time.time() - t0) * 1000), 'z3+cvc5+z3-4.8', s.reason_unknown()
+            st = {'status': 'replay-error', 'stderr': p.stderr[-500:]}
+        return p.returncode == 0, st
+    except Exception as e:      # noqa
+        return False, {'status': 'replay-error: %s' % e}
+    finally:
+        os.unlink(path)
 
 
-def verify_target(db, reg, key, timeout_ms=20000, want_smt2=False, findings=()):
+def verify_target(db, reg, key, timeout_ms=20000, want_smt2=False, findings=(), modules=()):
     """-> TargetResult (JSON-able via .obligations/.info)"""
     res = TargetResult(key)
     c = reg.contracts[key]
@@ -294,21 +291,40 @@ def verify_target(db, reg, key, timeout_ms=20000, want_smt2=False, findings=()):
                 continue
             fnd = [f for f in findings if f['obligation'].endswith('.' + vc.oid)]
             pc = vc.pc
-            if fnd and vc.kind != 'must_fail':
-                # known finding: prove the obligation OUTSIDE the recorded failure class, and show that the
-                # recorded failure is still there
+            if fnd:
+                # a recorded, still reproducing finding covers this obligation (the driver has replayed its
+                # witness on the real code): prove the obligation OUTSIDE the recorded failure class
                 sp = vc.snapshot.fork()
                 sp.spec = True
                 sp.env = dict(vc.inputs)
                 sp.pc = list(vc.pc)
                 klass = ex.spec_bool(sp, fnd[0]['class'])
-                v_in, _m, ms_in, _b, _w = solve_vc(list(vc.pc) + [klass], vc.goal, timeout_ms)
-                o['ms'] += ms_in
-                if v_in == 'sat':
-                    o['known'] = True
-                    o['finding_what'] = fnd[0].get('what', '')
                 pc = list(vc.pc) + [z3.Not(klass)]
-            verdict, model, ms, backend, why = solve_vc(pc, vc.goal, timeout_ms)
+                o['known'] = True
+                o['finding_id'] = fnd[0].get('id')
+                o['finding_what'] = fnd[0].get('what', '')
+            from . import smt
+            r1 = smt.solve(pc, vc.goal, timeout_ms)
+            verdict, model, ms, backend, why = r1['verdict'], r1['model'], r1['ms'], r1['backend'], r1['why']
+            if r1['approx']:
+                # candidate from the quantifier-instantiated approximation: confirm on the real code, or fall
+                # back to the full solvers
+                confirmed = False
+                if not fnd and vc.kind in ('ensures', 'noexc', 'raises') and modules:
+                    try:
+                        cand = concretize_inputs(model, vc.inputs, vc.snapshot)
+                        ok, stt = replay_candidate(key, vc.kind, vc.info.get('clause'), cand, list(modules), db.root)
+                        if ok:
+                            confirmed = True
+                            o['prereplayed'] = 'reproduced'
+                    except Exception as e:      # noqa
+                        pass
+                if not confirmed:
+                    r2 = smt.solve_full(smt.full_formulas(pc, vc.goal), timeout_ms)
+                    verdict, model, backend, why = r2['verdict'], r2['model'], r2['backend'], r2['why']
+                    ms += r2['ms']
+                    if verdict == 'sat' and model is None:
+                        model = r1['model']      # best effort: show the candidate
             o['ms'] += ms
             if backend not in o['backend']:
                 o['backend'].append(backend)
